@@ -140,6 +140,8 @@ pub struct VProject {
     pub modules: Vec<VModule>,
     pub refs: Vec<VRef>,
     pub compat_version: bool,
+    /// project description, help file path and conditional-compilation constants are non-empty (ANSI and unicode halves)
+    pub descriptive: bool,
 }
 
 fn enc(cp: u16, s: &str) -> Vec<u8> {
@@ -182,12 +184,19 @@ pub fn dir_stream(p: &VProject) -> Vec<u8> {
     d.extend(rec_var(0x0014, &0x0409u32.to_le_bytes())); // LCIDINVOKE
     d.extend(rec_var(0x0003, &cp.to_le_bytes())); // CODEPAGE
     d.extend(rec_var(0x0004, b"VBAProject")); // NAME
-    d.extend(rec_var(0x0005, b"")); d.extend(rec_var(0x0040, b"")); // DOCSTRING
-    d.extend(rec_var(0x0006, b"")); d.extend(rec_var(0x003D, b"")); // HELPFILEPATH
+    let u16s = |t: &str| -> Vec<u8> { t.encode_utf16().flat_map(|c| c.to_le_bytes()).collect() };
+    if p.descriptive {
+        // sizes are byte counts, also for the unicode halves
+        d.extend(rec_var(0x0005, b"Quarterly figures")); d.extend(rec_var(0x0040, &u16s("Quarterly figures"))); // DOCSTRING
+        d.extend(rec_var(0x0006, b"C:\\help\\a.chm")); d.extend(rec_var(0x003D, b"C:\\help\\a.chm")); // HELPFILEPATH (both ANSI)
+    } else {
+        d.extend(rec_var(0x0005, b"")); d.extend(rec_var(0x0040, b"")); // DOCSTRING
+        d.extend(rec_var(0x0006, b"")); d.extend(rec_var(0x003D, b"")); // HELPFILEPATH
+    }
     d.extend(rec_var(0x0007, &0u32.to_le_bytes())); // HELPCONTEXT
     d.extend(rec_var(0x0008, &0u32.to_le_bytes())); // LIBFLAGS
     d.extend(0x0009u16.to_le_bytes()); d.extend(4u32.to_le_bytes()); d.extend(0x5F0F_C2E3u32.to_le_bytes()); d.extend(0x0011u16.to_le_bytes()); // VERSION
-    d.extend(rec_var(0x000C, b"")); d.extend(rec_var(0x003C, b"")); // CONSTANTS
+    if p.descriptive { d.extend(rec_var(0x000C, b"DEBUGMODE = 1")); d.extend(rec_var(0x003C, &u16s("DEBUGMODE = 1"))); } else { d.extend(rec_var(0x000C, b"")); d.extend(rec_var(0x003C, b"")); } // CONSTANTS
     for r in &p.refs {
         let name = enc(cp, &r.name);
         d.extend(rec_var(0x0016, &name)); d.extend(rec_var(0x003E, &u16s(&r.name)));
